@@ -48,24 +48,48 @@
 #define rand igv_rand
 #define srand igv_srand
 #define rand_r igv_rand_r
+/* file-static names of the included files, renamed only so that they cannot collide with anything of the
+ * host headers; nothing below refers to them (if the library renames or removes them these are no-ops) */
 #define swap igv_qsort_swap
 #define seed igv_rand_seed
 
+/* Each file is included when it exists: a file that was merged into another one / split is then a LINK
+ * error naming the missing public function (or nothing at all, for the optional strtoq/strtouq), not a
+ * confusing preprocessor error in the shim. */
+#if __has_include(<compat/libc/stdlib/strtol.c>)
 #include <compat/libc/stdlib/strtol.c>
+#endif
+#if __has_include(<compat/libc/stdlib/strtoul.c>)
 #include <compat/libc/stdlib/strtoul.c>
+#endif
+#if __has_include(<compat/libc/stdlib/strtoll.c>)
 #include <compat/libc/stdlib/strtoll.c>
+#endif
+#if __has_include(<compat/libc/stdlib/strtoull.c>)
 #include <compat/libc/stdlib/strtoull.c>
+#endif
+#if __has_include(<compat/libc/inttypes/strtoimax.c>)
 #include <compat/libc/inttypes/strtoimax.c>
+#endif
+#if __has_include(<compat/libc/inttypes/strtoumax.c>)
 #include <compat/libc/inttypes/strtoumax.c>
+#endif
+#if __has_include(<compat/libc/stdlib/atol.c>)
 #include <compat/libc/stdlib/atol.c>
+#endif
+#if __has_include(<compat/libc/stdlib/rand.c>)
 #include <compat/libc/stdlib/rand.c>
+#endif
+#if __has_include(<compat/libc/stdlib/qsort.c>)
 #include <compat/libc/stdlib/qsort.c>
+#endif
+#if __has_include(<compat/libc/stdlib/bsearch.c>)
 #include <compat/libc/stdlib/bsearch.c>
+#endif
 
 /* ---- read-outs of what the compiled code contains (ops `consts`, `ctype`) ---- */
-size_t igv_rand_state_size(void) { return sizeof seed; }
-unsigned long long igv_rand_state(void) { return (unsigned long long) seed; }
-int igv_rand_state_unsigned(void) { return (__typeof__(seed)) -1 > 0; }
+/* (round 3b: rand.c's file-static `seed` is no longer named here - its width and initial value are probed
+ * through srand()/rand() by the harness, so a renamed / restructured state is not a compile error) */
 int igv_erange(void) { return ERANGE; }
 int igv_einval(void) { return EINVAL; }
 /* bit 0 isspace, 1 isdigit, 2 isalpha, 3 isupper, 4 isxdigit - the
